@@ -232,11 +232,14 @@ func (g Gateway) Set(ctx context.Context, in *hydrapb.SetRequest) (*hydrapb.SetR
 		swampName := name.Load(swampRequest.SwampName)
 
 		var internalError error
+		// a swamp-level error is the swamp's only response entry
+		swampLevelError := false
 
 		func() {
 
 			// this is a meaningless setting
 			if !swampRequest.GetCreateIfNotExist() && !swampRequest.GetOverwrite() {
+				swampLevelError = true
 				swampResponses = append(swampResponses, &hydrapb.SwampResponse{
 					SwampName:       swampRequest.SwampName,
 					KeysAndStatuses: []*hydrapb.KeyStatusPair{},
@@ -249,6 +252,7 @@ func (g Gateway) Set(ctx context.Context, in *hydrapb.SetRequest) (*hydrapb.SetR
 			if !swampRequest.GetCreateIfNotExist() {
 				isExist, err := hydraInterface.IsExistSwamp(swampRequest.GetIslandID(), swampName)
 				if err != nil || !isExist {
+					swampLevelError = true
 					swampResponses = append(swampResponses, &hydrapb.SwampResponse{
 						SwampName:       swampRequest.SwampName,
 						KeysAndStatuses: []*hydrapb.KeyStatusPair{},
@@ -326,7 +330,9 @@ func (g Gateway) Set(ctx context.Context, in *hydrapb.SetRequest) (*hydrapb.SetR
 			return nil, status.Error(codes.Internal, fmt.Sprintf("internal server error in hydra: %s", internalError.Error()))
 		}
 
-		swampResponses = append(swampResponses, swampResponse)
+		if !swampLevelError {
+			swampResponses = append(swampResponses, swampResponse)
+		}
 
 	}
 
